@@ -29,6 +29,7 @@ ORTHO = [(1, 1), (2, 2), (3, 3), (1, 2), (1, 3), (2, 3), (4, 4), (5, 5), (6, 6)]
 def cases(draw):
     s = draw(dataset_specs(max_nq=2, max_na=2, max_nt=3, keys_mode="ortho9+", interpolators=["lsq_poly"]))
     s["order"] = min(s["order"], 3)
+    s["touch_first"] = draw(st.sampled_from(["nothing", "s11t", "c11t", "pressure_base"]))     # API calls made before the averages are read
     return s
 
 
@@ -39,6 +40,17 @@ def oracle(ctx, s, ds, qs, case):
         path, cfg = materialise(ds, wd, qs)
         calc = ctx.observe(cc.Calculator, path, _bucket="C07/crash", _case=case)
         vb = calc.volume_base
+        # other read-only API calls made first must not change the averages
+        touch = s.get("touch_first", "nothing")
+        try:
+            if touch == "s11t":
+                getattr(vb, "s11t"), getattr(vb, "s_12t"), getattr(vb, "s44t")
+            elif touch == "c11t":
+                getattr(vb, "c11t"), getattr(vb, "c_1122t")
+            elif touch == "pressure_base":
+                calc.pressure_base.bulk_modulus_voigt_reuss_hill
+        except (AttributeError, ValueError):
+            pass
         adi = {tuple(k.voigt): np.array(v, dtype=float) for k, v in vb.modulus_adiabatic.items()}
         V = np.array(calc.v_array, dtype=float)
         names = {"KV": "bulk_modulus_voigt", "KR": "bulk_modulus_reuss", "K": "bulk_modulus_voigt_reuss_hill",
@@ -138,7 +150,7 @@ def sub_vrh(ctx):
             ctx.stats.skip("no-positive-definite-point")
             return
         ctx.case(s, info["noncubic"] and info["nonortho"],
-                 classes=["system-" + s["system"], "fill" if s["apply_system"] else "no-fill",
+                 classes=["system-" + s["system"], "fill" if s["apply_system"] else "no-fill", "touched-first-" + s.get("touch_first", "nothing"),
                           "noncubic" if info["noncubic"] else "cubic-like", "nonorthotropic" if info["nonortho"] else "orthotropic"])
 
     ctx.run_given(body, cases(), max_examples=ctx.n(160, 5000), shrink=not ctx.quick)
